@@ -15,6 +15,7 @@ import ast
 
 from .. import flow
 from ..astutil import polarity_atoms, body_walk, call_name, call_recv, calls_in, names_in, norm, strip_await, walk_no_nested
+from ..cfg import is_log_call
 from .common import parmap, where
 
 PROP = "C17"
@@ -463,6 +464,8 @@ def r17_9(ctx):
         ok = None
         for st in fi.node.body:
             if isinstance(st, ast.Expr) and isinstance(st.value, ast.Constant):
+                continue
+            if isinstance(st, ast.Expr) and isinstance(st.value, ast.Call) and is_log_call(st.value):
                 continue
             if isinstance(st, ast.If) and any(isinstance(b, ast.Raise) for b in st.body):
                 for a, pos in polarity_atoms(st.test):
